@@ -387,6 +387,26 @@ def run(tier, seed):
                 im = ("ok", [list(r[1].shape)]) if r[0] == "ok" else ("err", r[1])
                 if m != im:
                     mm.append({"cls": name, "call": "sample(%r)" % (bad,), "model": m, "impl": im})
+        # ... and a rejected value leaves no trace: the integers equal to the rejected floats are still accepted (and vice versa)
+        for good in (11, 13, 6):           # counts no earlier call of this run has used, as int or as float
+            attempt(d.sample, float(good), ctx)
+            r = attempt(d.sample, good, ctx)
+            r2 = attempt(d.sample, good, ctx, good)
+            attempt(d.sample, good, ctx, float(good))
+            r3 = attempt(d.sample, good, ctx, good)
+            r4 = attempt(d.sample, float(good), ctx)
+            ck.case((name, "after-bad", good), nontrivial=True)
+            if r[0] != "ok" or r2[0] != "ok" or r3[0] != "ok":
+                ck.finding("sample:valid-count-rejected-after-invalid-call:%s" % name.split("[")[0].split("(")[0],
+                           "%s: sample(%d) / sample(%d, batch_size=%d) right after the call sample(%r) was rejected -> %s / %s / %s"
+                           % (name, good, good, good, float(good), r[:2] if r[0] != "ok" else "ok", r2[:2] if r2[0] != "ok" else "ok", r3[:2] if r3[0] != "ok" else "ok"),
+                           {"search": "after-bad", "cls": name, "n": good})
+                break
+            if not (r4[0] == "err" and r4[1] == "TypeError"):
+                ck.finding("sample:bad-count-not-TypeError:%s" % name.split("[")[0].split("(")[0],
+                           "%s: sample(%r) right after sample(%d) succeeded -> %s" % (name, float(good), good, r4[:2] if r4[0] == "err" else list(r4[1].shape)),
+                           {"search": "after-bad", "cls": name, "arg": repr(float(good))})
+                break
         for badbs in (0, -2, 1.5, "2"):
             r = attempt(d.sample, 3, ctx, badbs)
             ck.case((name, "badbs", repr(badbs)), nontrivial=False)
